@@ -12,3 +12,6 @@ LEVEL_TEXT = ("Deductive: Rebalancing.make_trades (with the allocation algebra i
               "zero-sized trade, and `raises only for a missing quote`; Trade.__init__'s rejections are proved sound and complete. "
               "A perturbed postcondition (threshold with <= instead of <) must be refuted on every run.")
 EXPLANATION = LEVEL_TEXT
+
+from shell import runtime as _runtime
+SHELL = [_runtime.contracts_at_run_time]
